@@ -106,6 +106,11 @@ class Ctx:
         except Budget:
             raise
         except Exception as err:  # noqa: BLE001
+            if type(err).__name__ == "ContractBroken":
+                # an always-on contract (vf.contracts) fired inside library code the module did not wrap itself
+                self.violation("contract-broken:" + str(err).split("(")[0].split(" ")[0][:40], str(err)[:1500])
+                self.case = None
+                return
             tb = traceback.extract_tb(err.__traceback__)
             inner = tb[-1]
             in_repo = REPO_SRC in os.path.abspath(inner.filename)
